@@ -448,7 +448,7 @@ MUTANTS = {
     "binary_to_gray: wrong shift (n >> 2)": (U.binary_to_gray, _mut_b2g_shift, "gray.adjacent"),
     "binary_to_gray: special-cased literal 4242 -> 1": (U.binary_to_gray, e2.mut_special_case("num", 4242, "1"), "gray.roundtrip_g2b_b2g"),
     "gray_to_binary: result |= mask instead of ^=": (U.gray_to_binary, _mut_g2b_drop_xor, "gray.roundtrip_b2g_g2b"),
-    "gray_to_binary: special-cased literal 77 -> 78": (U.gray_to_binary, e2.mut_special_case("num", 77, "78"), "gray.g2b_injective"),
+    "gray_to_binary: special-cased literal 77 -> 78": (U.gray_to_binary, e2.mut_special_case("num", 77, "78"), "gray.roundtrip_b2g_g2b"),
 }
 
 
@@ -473,7 +473,15 @@ def _mutant(item):
         finally:
             glb[name] = saved
 
-    res = e2.prove(I, lambda: I.call(law, [e2.SI(vs[n]) for n in names]), assume, vs, native, tally, timeout_s=60, max_witnesses=1)
+    # violations of the *unmutated* code are excluded first (enumerated by the solver with blocking clauses),
+    # so that the mutant is only counted as caught when the mutation itself is what the check flags
+    I0 = make_interp()
+    base = e2.prove(I0, lambda: I0.call(law, [e2.SI(vs[n]) for n in names]), assume, vs, _native_of(law, names), tally, timeout_s=60,
+                    on_witness=lambda w: z3.Or([vs[n] != w[n] for n in names]), max_witnesses=16)
+    if base["status"] not in ("holds", "violated") or "cut off" in base["note"]:
+        return [ob(item["clause"], item["config"], "error", what=f"baseline for the mutant self-test undecided: {base['status']} {base['note']}", **tally.take())]
+    excl = [z3.Or([vs[n] != w["witness"][n] for n in names]) for w in base["witnesses"]]
+    res = e2.prove(I, lambda: I.call(law, [e2.SI(vs[n]) for n in names]), assume + excl, vs, native, tally, timeout_s=60, max_witnesses=1)
     st = tally.take()
     if res["status"] == "violated" and res["witnesses"] and res["witnesses"][0]["reproduced"]:
         w = res["witnesses"][0]["witness"]
